@@ -150,3 +150,30 @@ Theorem C09_conn_buffer_bound :
 Proof. exact (@Streams_proofs.C09_conn_buffer_bound). Qed.
 
 Print Assumptions C09_conn_buffer_bound.
+
+(* ---- stated for the whole connection handler (package O): the outbound split of the server half inside the composite *)
+From BS Require Import Bytes Varint Types FramedWrite Handler ServerHandler Framed Framed_proofs Streams Streams_proofs Handler_proofs ServerHandler_proofs ConnHandler ConnHandler_proofs ConnHandler_proofs2 Proto Prefix Incoming Qp ProtoCodec ProtoCodec_proofs Codec Frame Frame_proofs Codec_proofs Wire.
+From Coq Require Import ZArith Lia.
+Open Scope N_scope.
+
+Theorem C09_connhandler_outbound_split :
+  forall (encode : message -> bytes) (block_size : blk -> N) (msg : Type)
+    (parse : bytes -> N -> parse_result msg) (proc : msg -> pm_result) (c : conn) 
+    (ops : list kop),
+  let fin := fst (krun_trace encode block_size parse proc (k_init c) ops) in
+  let outs := concat (snd (krun_trace encode block_size parse proc (k_init c) ops)) in
+  k_dead fin = false ->
+  let st := k_server fin in
+  let souts := server_outs outs in
+  ((forall b : blk, In b (kqueued ops) -> block_size b <= MAX_MESSAGE_SIZE) ->
+   Forall (fun p : N * list blk => total block_size (snd p) <= MAX_MESSAGE_SIZE) (sh_started st)) /\
+  concat (map snd (sh_started st)) ++ pending_list st = kqueued ops /\
+  (forall id : N, Handler_proofs.prefix (swrote_on id souts) (sbytes encode id (sh_started st))) /\
+  (no_drop souts ->
+   forall (id : N) (buf : bytes),
+   sh_sink st = SvReady id buf ->
+   swrote_on id souts ++ buf =
+   concat (map (fun p : N * list blk => encode (payload_message (snd p))) (sh_started st))).
+Proof. exact (@ConnHandler_proofs2.C09_connhandler_outbound_split). Qed.
+
+Print Assumptions C09_connhandler_outbound_split.
